@@ -170,6 +170,32 @@ def scrape_consts(report):
         stale.append("PARSER_ORDER")
         order = ["comment", "field", "money", "atom", "percent", "timezone", "time", "number", "text", "whitespace", "operator"]
     vals["PARSER_ORDER"] = order
+    # ---- the STRUCTURE of the pipeline, pinned by Proofs/TiePins.v (an unscrapable source yields an empty list, which
+    #      breaks the pin: the model's hard-wired structure is then no longer known to be the code's)
+    def src(rel):
+        try:
+            return open(os.path.join(REPO, rel), encoding="utf-8").read()
+        except OSError:
+            return ""
+    t = src("src/tokinizer/mod.rs")
+    def calls(fn):
+        m = re.search(r'pub fn %s\(&mut self\) -> bool \{(.*?)\n    \}' % fn, t, re.S)
+        if not m:
+            return []
+        body = re.sub(r'log::debug!\([^;]*\);', '', m.group(1))
+        return [a or b for a, b in re.findall(r'(?:\b(\w+)\(self\);|self\.(\w+)\(\);)', body)]
+    vals["PASS_ORDER"] = calls("tokinize")
+    vals["BASIC_PASS_ORDER"] = calls("basic_tokinize")
+    t = src("src/tokinizer/rule_tokinizer/mod.rs")
+    vals["RULE_REGISTRY"] = re.findall(r'm\.insert\("(\w+)"\.to_string\(\),\s*(\w+)\s+as ExpressionFunc\)', t)
+    t = src("src/syntax/binary.rs")
+    vals["PARSE_LEVELS"] = [(a, b, re.findall(r"'(.)'", ops)) for a, b, ops in re.findall(
+        r'impl SyntaxParserTrait for (\w+) \{\s*fn parse\(parser: &mut SyntaxParser\) -> AstResult \{\s*parse_binary::<(\w+)>\(parser, &\[(.*?)\]\)', t, re.S)]
+    mp = []
+    for rel in ("src/syntax/mod.rs", "src/syntax/unary.rs", "src/syntax/primative.rs"):
+        for lst in re.findall(r'map_parser\(\w+, &\[(.*?)\]\)', src(rel), re.S):
+            mp.append((rel.split("/")[-1], [x.strip().replace("Self::", "").replace("::parse", "") for x in lst.split(",") if x.strip()]))
+    vals["MAP_PARSERS"] = mp
     report["scrape_stale"] = stale
     return vals
 
@@ -198,6 +224,14 @@ def gen_rust_consts(vals):
     L.append("Definition PARSER_ORDER : list str := %s." % clist(cstr(x) for x in vals["PARSER_ORDER"]))
     L.append("Definition DATE_RULES : list (str * list str) := %s." %
              clist("(%s, %s)" % (cstr(l), clist(cstr(r) for r in rs)) for l, rs in sorted(vals["DATE_RULES"].items())))
+    L.append("(* structure of the pipeline (pinned in Proofs/TiePins.v) *)")
+    L.append("Definition PASS_ORDER : list str := %s." % clist(cstr(x) for x in vals["PASS_ORDER"]))
+    L.append("Definition BASIC_PASS_ORDER : list str := %s." % clist(cstr(x) for x in vals["BASIC_PASS_ORDER"]))
+    L.append("Definition RULE_REGISTRY : list (str * str) := %s." % clist("(%s, %s)" % (cstr(a), cstr(b)) for a, b in vals["RULE_REGISTRY"]))
+    L.append("Definition PARSE_LEVELS : list (str * str * list N) := %s." %
+             clist("(%s, %s, %s)" % (cstr(a), cstr(b), clist(cN(ord(o)) for o in ops)) for a, b, ops in vals["PARSE_LEVELS"]))
+    L.append("Definition MAP_PARSERS : list (str * list str) := %s." %
+             clist("(%s, %s)" % (cstr(f), clist(cstr(x) for x in xs)) for f, xs in vals["MAP_PARSERS"]))
     return "\n".join(L) + "\n"
 
 
